@@ -172,7 +172,7 @@ impl Default for Counters {
         Counters {
             v: vec![0; C::_COUNT as usize],
             hard_by_class: vec![0; 13],
-            hard_by_kind: vec![0; 9],
+            hard_by_kind: vec![0; 13],
         }
     }
 }
